@@ -4,7 +4,7 @@
 
   OBLIGATIONS (checked against the axiom audit by the harness):
     gen_tables_as_modelled extracted_codecs_ascii default_pref_ok
-    xml_roundtrip_events output_wellformed_events
+    xml_roundtrip_events output_wellformed_events xml_roundtrip_partial tokenizer_inverts_serializer
     explicit_default_not_undeclared
     encode_roundtrip_text encode_roundtrip_attr charref_roundtrip
     attr_tab_lf_cr_not_recovered text_cr_not_recovered decl_encoding_echoed
@@ -12,6 +12,7 @@
 import Genshi.Lemmas.XmlRefs
 import Genshi.Lemmas.XmlFlatD
 import Genshi.Lemmas.XmlEmptyTag
+import Genshi.Lemmas.XmlTokD
 import Genshi.Model.XmlParser
 namespace Genshi.Props.C02
 open Genshi Genshi.Xml Genshi.Escape Genshi.Xml.Reader
@@ -61,6 +62,56 @@ theorem output_wellformed_events (pref : List (Str × Str)) (hpref : prefOK pref
     (h : docOK (emptyTag s) = true) :
     (resolve ((flatten pref (emptyTag s)).map normF)).isSome = true := by
   rw [resolve_flatten pref hpref _ h]; rfl
+
+/-- **The reader's tokenizer is a left inverse of the serializer's text** on
+    element content in tokenizer normal form (`bodyOK`: names, attribute values,
+    text, comments, PIs, CDATA sections the XML syntax can express; no `Markup`
+    text; character data not adjacent to character data): the text is produced
+    (no exception) and is read back as the same events (`None` attribute values
+    as empty strings). -/
+theorem tokenizer_inverts_serializer (fs : List FEv) (h : bodyOK fs = true) :
+    ∃ out, serRun SerSt.init fs = some out ∧ tokenize out = some (fs.map normF) :=
+  tokenize_serRun fs h
+
+/-- **xml_roundtrip (text level), partial.**  For every well-nested stream in
+    `docOK` whose flattened form is element content the text syntax can express
+    (`bodyOK`), the serializer produces a text and the XML reader — tokenizer,
+    reference decoding, attribute-value and end-of-line normalisation, namespace
+    resolution, well-formedness checks — reads from it exactly the events the
+    stream denotes.
+
+    Full statement (`xml_roundtrip`): the same for every stream the parser
+    produces from a well-formed document and every builder stream, under every
+    encoding.  Missing here: (a) the prolog — XML declaration and DOCTYPE are
+    outside `bodyOK` (their token lemmas are not proved); (b) adjacent TEXT
+    events (builder streams; the parser never produces them) need a merging
+    lemma; (c) `bodyOK` is asked of the flattener's *output* (names with
+    prefixes), not derived from conditions on the input names and prefixes;
+    (d) the composition with `encode` over whole documents (proved for character
+    data: `encode_roundtrip_text/_attr`).  All four are exercised by the oracle
+    on the real code and by the correspondence stream `read`. -/
+theorem xml_roundtrip_partial (pref : List (Str × Str)) (hpref : prefOK pref = true) (s : Stream)
+    (hn : WellNested s) (h : docOK (emptyTag s) = true)
+    (hb : bodyOK (flatten pref (emptyTag s)) = true) :
+    ∃ out, serRun SerSt.init (flatten pref (emptyTag s)) = some out ∧
+      Reader.read out = some (canonS s) := by
+  obtain ⟨out, h1, h2⟩ := tokenize_serRun _ hb
+  refine ⟨out, h1, ?_⟩
+  unfold Reader.read
+  rw [h2]
+  exact xml_roundtrip_events pref hpref s hn h
+
+/-- a namespaced document with mixed content is inside both hypotheses, and the
+    text it is about is the expected one -/
+example :
+    let s : Stream :=
+      [.startNs [] ['u'], .start ⟨['u'], ['a']⟩ [(⟨[], ['x']⟩, ['1', '"', '<'])],
+       .text ['t', '&'] false, .comment ['c'], .startCdata, .text ['<', 'z'] false, .endCdata,
+       .start ⟨['v'], ['b']⟩ [], .end_ ⟨['v'], ['b']⟩, .pi ['p'] ['d'],
+       .end_ ⟨['u'], ['a']⟩, .endNs []]
+    WellNested s ∧ docOK (emptyTag s) = true ∧ bodyOK (flatten defaultPref (emptyTag s)) = true ∧
+    (serialize s).isSome = true := by
+  refine ⟨by decide, by decide, by decide, by decide⟩
 
 /-- a document with re-bound prefixes, two prefixes for one URI, an undeclared
     default namespace and an unbound attribute namespace is inside the hypothesis -/
